@@ -37,8 +37,6 @@ import (
 	"crypto/subtle"
 	"fmt"
 
-	xcurve "golang.org/x/crypto/curve25519"
-
 	"github.com/oasisprotocol/ed25519"
 	"github.com/oasisprotocol/ed25519/internal/curve25519"
 	"github.com/oasisprotocol/ed25519/internal/ge25519"
@@ -64,15 +62,69 @@ var basePoint = [32]byte{9, 0, 0, 0, 0, 0, 0, 0, 0, 0, 0, 0, 0, 0, 0, 0, 0, 0, 0
 // zeroes, irrespective of the scalar. Instead, use the X25519 function, which
 // will return an error.
 func ScalarMult(dst, in, base *[32]byte) {
-	xcurve.ScalarMult(dst, in, base)
+	// The amd64 assembly backend of the pinned golang.org/x/crypto has the
+	// comparison in its final reduction (freeze) the wrong way around:
+	// results in [2^255-2^51, 2^255-19) come out wrong and results
+	// congruent to 1..18 come out unreduced.  Run the RFC 7748 Montgomery
+	// ladder on the internal field arithmetic instead.
+	var (
+		e                              [32]byte
+		x1, x2, z2, x3, z3, tmp0, tmp1 curve25519.Bignum25519
+		swap                           uint64
+	)
 
-	// The assembly backend of the pinned golang.org/x/crypto does not fully
-	// reduce results congruent to 0..18 (it returns them plus 2^255-19),
-	// serialize the canonical representative as RFC 7748 requires.
-	var u curve25519.Bignum25519
-	curve25519.Expand(&u, dst[:])
-	curve25519.Contract(dst[:], &u)
+	// clamp
+	copy(e[:], in[:])
+	e[0] &= 248
+	e[31] &= 127
+	e[31] |= 64
+
+	curve25519.Expand(&x1, base[:]) // Ignores bit 255, as RFC 7748 requires.
+	x2[0] = 1
+	curve25519.Copy(&x3, &x1)
+	z3[0] = 1
+
+	for pos := 254; pos >= 0; pos-- {
+		bit := uint64(e[pos/8]>>uint(pos&7)) & 1
+		swap ^= bit
+		curve25519.SwapConditional(&x2, &x3, swap)
+		curve25519.SwapConditional(&z2, &z3, swap)
+		swap = bit
+
+		curve25519.Sub(&tmp0, &x3, &z3)     // D = x3 - z3
+		curve25519.Sub(&tmp1, &x2, &z2)     // B = x2 - z2
+		curve25519.Add(&x2, &x2, &z2)       // A = x2 + z2
+		curve25519.Add(&z2, &x3, &z3)       // C = x3 + z3
+		curve25519.Mul(&z3, &tmp0, &x2)     // DA
+		curve25519.Mul(&z2, &z2, &tmp1)     // CB
+		curve25519.Square(&tmp0, &tmp1)     // BB
+		curve25519.Square(&tmp1, &x2)       // AA
+		curve25519.Add(&x3, &z3, &z2)       // DA + CB
+		curve25519.Sub(&z2, &z3, &z2)       // DA - CB
+		curve25519.Mul(&x2, &tmp1, &tmp0)   // x2 = AA * BB
+		curve25519.Sub(&tmp0, &tmp1, &tmp0) // E = AA - BB
+		curve25519.Square(&z2, &z2)         // (DA - CB)^2
+		curve25519.Mul(&z3, &tmp0, &a24)    // a24 * E
+		curve25519.Square(&x3, &x3)         // x3 = (DA + CB)^2
+		curve25519.Add(&tmp1, &tmp1, &z3)   // AA + a24 * E
+		curve25519.Mul(&z3, &x1, &z2)       // z3 = x1 * (DA - CB)^2
+		curve25519.Mul(&z2, &tmp0, &tmp1)   // z2 = E * (AA + a24 * E)
+	}
+	curve25519.SwapConditional(&x2, &x3, swap)
+	curve25519.SwapConditional(&z2, &z3, swap)
+
+	// u = x2 / z2, canonical (the all-zero string when z2 = 0)
+	curve25519.Recip(&z2, &z2)
+	curve25519.Mul(&x2, &x2, &z2)
+	curve25519.Contract(dst[:], &x2)
+
+	for i := range e {
+		e[i] = 0
+	}
 }
+
+// a24 is (486662 - 2) / 4, the constant of the RFC 7748 ladder step.
+var a24 = curve25519.Bignum25519{121665}
 
 // ScalarBaseMult sets dst to the product in*base where dst and base are
 // the x coordinates of group points, base is the standard generator and
